@@ -59,7 +59,12 @@ func buildGenerator() (string, error) {
 			return
 		}
 		genBin = filepath.Join(dir, "capnpc-go")
-		cmd := exec.Command("go", "build", "-o", genBin, "capnproto.org/go/capnp/v3/capnpc-go")
+		args := []string{"build", "-o", genBin}
+		if os.Getenv("VERIF_C15_COVER") != "" {
+			// development aid: with GOCOVERDIR set, the generator leaves coverage data of its own code there
+			args = append(args, "-cover")
+		}
+		cmd := exec.Command("go", append(args, "capnproto.org/go/capnp/v3/capnpc-go")...)
 		cmd.Dir, cmd.Env = harnessDir(), goEnv()
 		if out, err := cmd.CombinedOutput(); err != nil {
 			buildErr = fmt.Errorf("building capnpc-go: %v\n%s", err, out)
